@@ -14,7 +14,11 @@ PROP = "C17"
 INSTRUMENTED = ["buildblock/KeyParser.cxx", "buildblock/interfile_keyword_functions.cxx", "buildblock/MultipleDataSetHeader.cxx",
                 "IO/InterfileHeader.cxx", "IO/InterfileHeaderSiemens.cxx", "IO/InterfilePDFSHeaderSPECT.cxx", "IO/interfile.cxx",
                 "buildblock/ProjDataInfo.cxx", "buildblock/Scanner.cxx", "buildblock/ProjDataFromStream.cxx"]
-SAN_FLAGS = ["-fsanitize=address,undefined", "-fno-sanitize-recover=all", "-fno-omit-frame-pointer"]
+# Every sanitizer report kills the reader, except signed integer overflow: that one is reported on stderr and the run goes on
+# with the wrapped value, as it does in the un-instrumented library on x86-64.  The property names out-of-bounds access, unbounded
+# allocation and silently accepted inconsistent sizes; an overflow in the arithmetic on absurd header values is judged by what it
+# leads to (rejected / accepted and consistent / inconsistent / killed) and counted in coverage.fuzz_signed_overflow_reports.
+SAN_FLAGS = ["-fsanitize=address,undefined", "-fno-sanitize-recover=all", "-fsanitize-recover=signed-integer-overflow", "-fno-omit-frame-pointer"]
 
 
 def _cxx_flags(bdir):
@@ -82,8 +86,26 @@ _UB_KINDS = [(r"division by zero", "division-by-zero"), (r"reference binding to 
              (r"downcast of address", "bad-downcast"), (r"applying (non-)?zero offset", "pointer-overflow"), (r"pointer index expression", "pointer-overflow")]
 
 
+def _strip_overflow(stderr_text):
+    """drop the (non-fatal) UBSan signed-integer-overflow reports with their stack traces: they never killed the reader"""
+    out, skipping = [], False
+    for l in stderr_text.splitlines(True):
+        if "runtime error: signed integer overflow" in l:
+            skipping = True
+            continue
+        if skipping and re.match(r"\s+#\d+ 0x", l):
+            continue
+        if skipping and not l.strip():
+            skipping = False
+            continue
+        skipping = False
+        out.append(l)
+    return "".join(out)
+
+
 def classify(stderr_text, how, target="unknown", text=b""):
     """stable key for a killed input: kind of report + innermost STIR function on the stack"""
+    stderr_text = _strip_overflow(stderr_text)
     kind = None
     m = re.search(r"ERROR: AddressSanitizer: ([a-zA-Z0-9_-]+)", stderr_text)
     if m:
@@ -93,7 +115,7 @@ def classify(stderr_text, how, target="unknown", text=b""):
         if m.group(1) == "SEGV":
             kind = "asan-SEGV"
     m = re.search(r"runtime error: (.*)", stderr_text)
-    if m and (kind is None or stderr_text.find("runtime error") < stderr_text.find("ERROR: AddressSanitizer")):
+    if m and (kind is None or m.start() < stderr_text.find("ERROR: AddressSanitizer")):
         kind = "ubsan-other"
         for pat, name in _UB_KINDS:
             if re.search(pat, m.group(1)):
@@ -115,6 +137,17 @@ def classify(stderr_text, how, target="unknown", text=b""):
             name = re.sub(r"<[^<>]*>", "", name)
             func = name.replace(" ", "")
             break
+    if kind == "asan-allocation-size-too-big":
+        # Known open class (see known_findings.txt): a table / image / sinogram is allocated with the size that the header
+        # itself declares (number of dimensions, time frames, energy windows, data sets, matrix size, projections ...), with
+        # no plausibility limit and before the data file is looked at.  An allocation belongs to this class only if it is
+        # explained by a number written in the input: requested bytes <= 256 * (largest int literal >= 2^20 in the text).
+        # A large allocation from a header that contains small numbers only is NOT in the class and is reported per function.
+        m = re.search(r"requested allocation size 0x([0-9a-f]+)", stderr_text)
+        lits = [int(x) for x in re.findall(rb"\d+", text) if len(x) <= 10 and int(x) <= 2**31 - 1]
+        nmax = max(lits) if lits else 0
+        if m and nmax >= 2**20 and int(m.group(1), 16) <= 256 * nmax:
+            return "alloc:proportional-to-number-declared-in-header"
     if func == "unknown-function":
         t = text[:-1] if text.endswith(b"\r") else text
         if t.endswith(b"\\") and kind in ("timeout", "asan-allocation-size-too-big", "asan-out-of-memory"):
@@ -125,6 +158,7 @@ def classify(stderr_text, how, target="unknown", text=b""):
 
 
 def report_tail(stderr_text):
+    stderr_text = _strip_overflow(stderr_text)
     i = stderr_text.find("runtime error")
     j = stderr_text.find("ERROR: AddressSanitizer")
     k = stderr_text.find("VERIF-TIMEOUT")
@@ -148,6 +182,7 @@ def run_fuzz(chk, tier):
         chk.violation("fuzz-harness-abort", "C17 fuzz harness itself aborted (exit %d)" % r.returncode, r.stdout[-4000:], found_input=False)
         return {}
     verdicts, per_target, killed_by_key, inconsistent_by_key, done = {}, {}, {}, {}, None
+    overflow_reports = 0
     for l in open(resfile, errors="replace"):
         t = l.split()
         if not t:
@@ -158,8 +193,10 @@ def run_fuzz(chk, tier):
                 v += "-" + t[4]
             verdicts[v] = verdicts.get(v, 0) + 1
             per_target[t[1]] = per_target.get(t[1], 0) + 1
+            if "+signed-overflow" in t:
+                overflow_reports += 1
             if t[3] == "inconsistent":
-                msg = " ".join(t[4:]).split(" | ")[0]
+                msg = " ".join(t[4:]).split(" | ")[0].replace(" +signed-overflow", "")
                 key = "inconsistent:%s:%s" % (t[1], re.sub(r"[^a-zA-Z]+", "-", re.sub(r"\d+", "N", msg)).strip("-")[:80])
                 inp = l.split("input=")[-1].strip() if "input=" in l else None
                 inconsistent_by_key.setdefault(key, []).append((t[1], msg, inp))
@@ -190,6 +227,7 @@ def run_fuzz(chk, tier):
     return dict(fuzz_inputs=sum(per_target.values()), fuzz_inputs_per_target=per_target, fuzz_verdicts=verdicts,
                 fuzz_killed_classes={k: len(v) for k, v in killed_by_key.items()},
                 fuzz_inconsistent_classes={k: len(v) for k, v in inconsistent_by_key.items()},
+                fuzz_signed_overflow_reports=overflow_reports,
                 fuzz_instrumented_sources=INSTRUMENTED)
 
 
@@ -270,6 +308,8 @@ def main(tier, replay):
         "characters are bytes in the \"C\" locale; NUL bytes and ${ENV} substitution are not modelled (generators avoid them)",
         "floating point / unsigned / long values, arrays, coordinates and nested parsing objects are not in the Lean model: they are covered by the round-trip oracle on the implementation only",
         "atoi/strtol and istream>>int follow glibc/libstdc++ on x86-64 (saturation at LONG_MIN/MAX then wrap to 32 bit; failbit on int overflow)",
+        "UBSan signed-integer-overflow reports do not kill the reader (the run continues with the wrapped value as in the plain build) and are only counted "
+        "(coverage.fuzz_signed_overflow_reports): such an input is judged by its outcome; all other sanitizer reports are fatal",
         "memory safety, allocation size and termination under malformed input are RUNTIME EVIDENCE from the sanitizer run on the generated inputs (mutation loop, not coverage-guided), not theorems; "
         "only the sources in coverage.fuzz_instrumented_sources (and inlined headers) are instrumented, the rest of STIR is linked from the plain build",
         "classes that cannot be constructed without external data are listed in coverage.registered_classes, not failed"]
